@@ -8,7 +8,7 @@ from ..cfg import parent_map
 from ..dataflow import assignments, expand, expanded_text, guard_text
 from ..interp import EnumVal, Field, Idx, LinOp
 from ..model import mesh_model, new_interp
-from ..src import AnalysisError, loc, norm, own_nodes
+from ..src import rename_id, AnalysisError, loc, norm, own_nodes
 from .c04 import operators
 
 SOLVER = "tdgl.solver.solver"
@@ -177,12 +177,13 @@ def wiring(ctx):
         raise AnalysisError("Device.terminal_info no longer builds one TerminalInfo per terminal")
     tc = tcalls[0]
     site_arg = tc.args[1] if len(tc.args) > 1 else {k.arg: k.value for k in tc.keywords}.get("site_indices")
-    txt = expanded_text(ft.node, site_arg, stop=("sites", "mesh", "terminal"))
-    ok = txt.replace(" ", "") in (
-        "np.intersect1d(terminal.contains_points(sites,index=True),mesh.boundary_indices)",
-        "np.intersect1d(mesh.boundary_indices,terminal.contains_points(sites,index=True))")
-    sites_txt = expanded_text(ft.node, ast.Name(id="sites", ctx=ast.Load()))
-    ok = ok and sites_txt == "self.points"
+    from .c01 import _loop_var_over
+    tv = _loop_var_over(ft.node, "self.terminals")
+    txt = rename_id(expanded_text(ft.node, site_arg, stop=(tv,)), tv, "T").replace(" ", "")
+    ok = txt in (
+        "np.intersect1d(T.contains_points(self.points,index=True),self.mesh.boundary_indices)",
+        "np.intersect1d(self.mesh.boundary_indices,T.contains_points(self.points,index=True))")
+    sites_txt = "self.points"
     ctx.ob("R06.4", "TerminalInfo.site_indices == boundary sites whose (dimensionful) position lies in the terminal polygon",
            ok, detail={"site_indices": txt, "sites": sites_txt}, where=ft.fq, construct="TerminalInfo.site_indices",
            loc=loc(ft, tc), message=f"terminal sites are computed as {txt} over {sites_txt}",
